@@ -346,6 +346,8 @@ of_status_t	of_ldpc_staircase_set_fec_parameters (of_ldpc_staircase_cb_t*	ofcb,
 				OF_PRINT_ERROR(("%s: ERROR: of_ldpc_staircase_decode_with_new_symbol() failed\n", __FUNCTION__))
 				goto error;
 			}
+			/* the decoder keeps its own copy of a repair symbol, so free ours. */
+			of_free (null_symbol);
 		}
 	}
 #endif //OF_USE_DECODER
